@@ -23,6 +23,12 @@ CLAIMED = {
  'C09': dict(engine='symexec', technique='bounded symbolic execution of the real quantisers over z3 terms (round-half-even via ToInt, clip via If); value/range/monotonicity by SMT lemmas; refresh schedule as an inductive step from an arbitrary counter state with symbolic integer period plus unrolled call sequences',
              text='For bit widths 2..8 and inputs of up to 4 symbolic samples, z3 shows the output is clip(round((target_std/data_std)(x-data_mean)+target_mean)) with the statistics estimated once from the leading samples (or the custom deviation), within range, monotone (three lemmas), constant input maps to the target mean, complex = two independent real quantisers; for EVERY integer period the counter step refreshes exactly on calls 0,p,2p.. (p>0) or only on the first call (p<=0).',
              note='exact reals (ties within 1e-6 skipped in replays); estimate_stats abstracted to fresh symbols inside value queries and verified separately; n<=4', ref='DESIGN.md section 4 C09'),
+ 'C10': dict(engine='symexec', technique='bounded symbolic execution of the real DataStream/Antenna methods with symbolic clock, rate, signal and noise parameters; generator draws as Z(seed,k) terms, cos and custom sources uninterpreted; SMT decides every sample == closed form for every request composition and clock-operation sequence',
+             text='For every composition of up to 4 (thorough 6) samples into requests and every sequence of up to 2 clock operations (set/add/reset/update_noise with equal or different size) between requests, z3 shows that for all parameter values each sample equals v_mean + v_std*Z(k) + level*cos(+-2pi((f-fch1)t + d t^2/2)+phase) + custom(t) at t = t_start + k/sample_rate, equals the single-request value, and that the clock lands exactly on the requested instant; antenna = polarisations stacked x,y on one timeline with its own clock equal to its streams.',
+             note='exact-real clock; seeded generator abstracted as a fixed draw sequence; request sizes <= 6', ref='DESIGN.md section 4 C10'),
+ 'C15': dict(engine='symexec', technique='bounded symbolic execution of the real MultiAntennaArray with symbolic integer delays (forked over values and induced slice bounds, completeness query), samples as Z(seed,k)+chirp(t) terms; SMT decides alignment per sample',
+             text='For 1..3 antennas, 1..2 polarisations, EVERY delay vector in 0..dmax (dmax <= 3) and the omitted default, every composition of 7 (thorough 8) samples into admissible requests, with and without set_time between requests, z3 shows antenna i sample k = own sample k + background sample k + max_delay - delay_i (per polarisation, at the right time), and that resetting the time restarts the alignment.',
+             note='exact-real clock; Generator abstracted as fixed draw sequence', ref='DESIGN.md section 4 C15'),
 }
 NA = {}
 
